@@ -11,13 +11,18 @@
    call run, inside a section none.  The code is finer: an operation on a handle takes only a
    file's or directory's mutex and runs inside other calls' sections of mu, between two of their
    file-mutex sections.  Three such windows were found by real preemption and repaired
-   ([sc_rdnames_split], [sc_rename_parents_split], [sc_rename_kids_split]); a fourth is open:
-   OpenFile with O_APPEND|O_TRUNC seeks and truncates under two holds of the file's mutex, so for
-   handle operations today's OpenFile behaves like [sc_open_finish] = true although the switch is
-   false for every call that takes mu (w10 in Proofs/LinProof.v).  On the search side the
-   lock-aware cooperative scheduler (harness/cmd/afcheck/c04_verifsched.go) switches goroutines at
-   every lock acquisition, also inside sections of mu, and explores fixed window programs
-   exhaustively under a preemption bound; nothing about these interleavings is proved here. *)
+   ([sc_rdnames_split], [sc_rename_parents_split], [sc_rename_kids_split]); a fourth was found by
+   the lock-aware cooperative scheduler and repaired: OpenFile with O_APPEND|O_TRUNC used to seek
+   and truncate under two holds of the file's mutex, so for handle operations it behaved like
+   [sc_open_finish] = true although that switch is false for every call that takes mu (w10 in
+   Proofs/LinProof.v).  The translator now also reads HOW the handle is finished
+   ([lin_openfile_finish_one_hold]: 1 = one method of mem.File, one hold of the file's mutex);
+   [ln_cfg_handles_today] below is the table with OpenFile as the operations on handles see it,
+   and with today's source it coincides with [ln_cfg_today]: against handle operations OpenFile
+   is now one step.  That is a fact about ONE method, established by shape recognition; the
+   machine still has no locks, and that no other namespace method has such a window is search
+   (the lock-aware scheduler, harness/cmd/afcheck/c04_verifsched.go: every lock acquisition is a
+   switching point, fixed window programs exhaustively under a preemption bound), not proof. *)
 From Coq Require Import Sorting.Permutation.
 From AF Require Import Lib.Bytes Lib.Path Lib.Ops Gen.Consts Model.MemFile Model.MemFs.
 Local Open Scope nat_scope.
@@ -240,6 +245,15 @@ Definition ln_cfg_today : seccfg :=
         (negb (Z.eqb lin_removeall_locks 1)) (negb (Z.eqb lin_chmod_locks 1)) (negb (Z.eqb lin_chtimes_locks 1))
         (Z.eqb lin_openfile_finish_outside 1) (Z.eqb lin_readdirnames_outside 1)
         (Z.eqb lin_rename_parents_apart 1) (Z.eqb lin_rename_children_apart 1).
+(* OpenFile as the operations on HANDLES see it.  They take the file's mutex only, never mu, so
+   the seek and the truncation of OpenFile are one step for them only when both happen under one
+   hold of that mutex; otherwise they can run between the two although OpenFile holds mu all
+   along.  (Over-approximation: with the switch on the machine lets every call run there.) *)
+Definition ln_cfg_handles_today : seccfg :=
+  let k := ln_cfg_today in
+  mkCfg (sc_open_split k) (sc_open_setmode k) (sc_mkdir_setmode k) (sc_rmall_split k) (sc_chmod_split k)
+        (sc_chtimes_split k) (sc_open_finish k || negb (Z.eqb lin_openfile_finish_one_hold 1))
+        (sc_rdnames_split k) (sc_rename_parents_split k) (sc_rename_kids_split k).
 Definition ln_cfg_atomic : seccfg := mkCfg false false false false false false false false false false.
 
 Inductive lpc :=
